@@ -327,6 +327,9 @@ func (osObj *VirtualOS) MkdirTemp(dir, pattern string) (string, error) {
 	if dir != "" {
 		return "", errors.New("cannot specify directory")
 	}
+	if strings.ContainsRune(pattern, os.PathSeparator) {
+		return "", errors.New("pattern contains path separator")
+	}
 	if osObj.tmp == "" {
 		return "", errors.New("no temporary directory")
 	}
